@@ -74,4 +74,17 @@ Proof. exact EquivMw.proxy_relay_model_partial. Qed.
 Print Assumptions C18_code_proxy_relay_model_partial.
 
 
+
+(* ---- tie to the code (server/protocol.py: the request timer is cancelled when the request line is complete - it cannot fire while the proxy waits for its upstream): theorems of coq/Equiv/EquivServer.v (statements there), re-checked against the definitions
+   regenerated from /repo's working tree; see DESIGN.md 11.8 ---- *)
+From NV Require Equiv.EquivServer.
+Theorem C18_code_data_received_tie : ltac:(let t := type of @EquivServer.data_received_tie in exact t).
+Proof. exact (@EquivServer.data_received_tie). Qed.
+Print Assumptions C18_code_data_received_tie.
+
+Theorem C18_code_handle_timeout_tie : ltac:(let t := type of @EquivServer.handle_timeout_tie in exact t).
+Proof. exact (@EquivServer.handle_timeout_tie). Qed.
+Print Assumptions C18_code_handle_timeout_tie.
+
+
 Close Scope N_scope.
